@@ -126,8 +126,8 @@ func c13PubGen(r *verifh.Rng) []verifh.Section {
 				}
 				pubs[p] = &pst{state: "run", x: kind == "pubx"}
 				f := ""
-				if kind == "pub" && r.Chance(1, 3) {
-					if f = fault("grant", "put", "ka"); f != "" {
+				if kind == "pub" {
+					if f = fault([]string{"grant", "put", "ka"}[(i/4+len(pubs))%3]); f != "" {
 						pubs[p].state = "failed" // KeepAlive returned an error: no goroutine serves Pause / Resume
 					}
 				}
@@ -212,7 +212,7 @@ func c13PubGen(r *verifh.Rng) []verifh.Section {
 					ids = []int{p}
 				}
 				p := ids[r.Intn(len(ids))]
-				f := fmt.Sprintf(" !%s:1", r.PickS("grant", "put", "ka"))
+				f := fmt.Sprintf(" !%s:1", []string{"grant", "put", "ka"}[(i/4)%3]) // every kind in every run
 				if r.Chance(1, 2) {
 					ops = append(ops, fmt.Sprintf("kaclose %d%s", p, f))
 				} else {
@@ -305,7 +305,7 @@ func TestVerifC13Pub(t *testing.T) {
 			extra := ""
 			opWait := wait
 			if fn > 0 && wait > time.Second {
-				opWait = time.Duration(fn+1)*time.Second + 4*time.Second
+				opWait = time.Duration(fn+1)*time.Second + 2*time.Second
 			}
 			kaPuts := 0
 			if fkind == "ka" {
@@ -432,7 +432,11 @@ func TestVerifC13Pub(t *testing.T) {
 				}
 			}
 			// the publishers' goroutines revoke on Stop: let them finish before the next session resets the store
-			ses.Etcd.AwaitCounts(puts, revokes, 2*time.Second)
+			if dead {
+				ses.Etcd.AwaitCounts(puts, revokes, 300*time.Millisecond)
+			} else {
+				ses.Etcd.AwaitCounts(puts, revokes, 2*time.Second)
+			}
 			if sub != nil {
 				ses.Close()
 				sub.Close()
